@@ -1005,3 +1005,98 @@ def distribution(cases, results):
                     dd = e.setdefault(fld, {})
                     dd[c[fld]] = dd.get(c[fld], 0) + 1
     return d
+
+
+# ====================================================================================================================
+# translator tie (added; nothing above depends on it): the coroutine `edges` and Events.get_range_samples /
+# get_latest_samples are regenerated from the source under test on every run (translate/pyedges2coq.py ->
+# coq/gen/EdgesGen.v, in the vocabulary of coq/Edges/TiePrims.v; the calls util.epochs / util.debounce_epochs are the
+# definitions of coq/gen/RunsGen.v, regenerated here as well through the hook of harness/C18.py).  coq/Edges/ProofsTie.v
+# proves the generated definitions equal to coq/Edges/Model.v (C13_source_* in coq/Props/C13.v).  A source the
+# translator cannot digest, a failing self-test against the real coroutine or a tie theorem that no longer checks is
+# reported by the driver as a broken tie.
+GEN = 'gen/EdgesGen.v'
+TRUSTED = TRUSTED + [
+    'translate/pyedges2coq.py (fail-closed ast translator, coroutine -> step function: S0; x = (yield).astype(bool); S1; while True: S; '
+    'x = (yield).astype(bool)  becomes  gen_edges_setup (S0) / gen_edges_start (S1) / gen_edges_step (S, one send; target(..) = the '
+    'output, exactly one per path); `if isinstance(x, PipelineData)` = match on the annotation, x.s0 / x.fs readable only where x is known '
+    'to be annotated; `for lb, ub in epochs` = fold_left of a generated body; events.append = py_append; string literals '
+    "'rising'/'falling'/'both' = constructors.  Pinned and dropped (exact text): the channel-label statements of the set-up, "
+    "`if fs == 'auto': fs = None` (the rate is an opaque label; 'auto' and None are one label), the ndim block (1-D / (1, n) / "
+    'ValueError: the model has 1-D chunks).  Pinned as text: the signatures and defaults of the three targets, the @coroutine decorator, '
+    'Events.__init__ (start / end / fs / events fields), the keyword arguments channel= / metadata= of the PipelineData(..) call.  '
+    'Pinned by sha256 of their docstring-free text, because primitives stand for them: pipeline.concat (pd_concat), '
+    'PipelineData.__new__ (pd_new), PipelineData.__getitem__ (pd_from).  Self-test on every run: the emitted definitions are evaluated '
+    'by coqc (vm_compute) against the real coroutine send by send - block handed to the target, prior_samples / s0 / fs of the suspended '
+    'generator frame, ValueError - on ~60 random schedules (plain / (1,n) / PipelineData / no rate, misaligned, different-rate and mixed '
+    'chunks, empty chunks) and against the real Events methods on 180 queries)',
+    'the primitives of coq/Edges/TiePrims.v as modelled (exercised by that self-test, not proved): np_tile_bool, arr_len, pd_new, pd_concat, '
+    'pd_from (PipelineData slicing moves s0), detect_eqb / str_in, mk_events, df_sample, np_lt_s, np_and; and those of '
+    'coq/Runs/NumpyPrims.v (see harness/C18.py)',
+    'coq/Edges/ProofsTie.v: rep (a model state read as the locals prior_samples, s0, fs: the carried samples are annotated with the local '
+    's0 and fs exactly when the input is annotated); source_run_edges (set-up, first chunk, one generated step per send, an exception '
+    'ends the coroutine) as the reading of "the chunks are sent to edges(..)"']
+ASSUMPTIONS = ASSUMPTIONS + [
+    'translator tie: the step equality needs wf_tie (annotated carried samples are exactly m >= 1 long; established by the first chunk, '
+    'kept by every step, refuted without: C13_source_step_refuted) and fuel above the length of the joined array (the while loops of '
+    'util.smooth_epochs are Fixpoints on fuel; C13_source_step_fuel_refuted); combine_events and the seconds-based queries get_range / '
+    'get_latest are not translated (differential testing only)']
+
+
+def translate(repo):
+    """Regenerate coq/gen/RunsGen.v (hook of harness/C18.py) and coq/gen/EdgesGen.v from the source under test and self-test
+    them.  A translator gap or a failed self-test is written as a generated file that does not compile, so that the driver
+    reports the tie as broken (fail closed)."""
+    import importlib
+    import os
+    import random
+    import vlib
+    from translate import pyedges2coq
+    info = {'gen_files': [GEN, 'gen/RunsGen.v'], 'source': [os.path.join(repo, 'psiaudio/pipeline.py'), os.path.join(repo, 'psiaudio/util.py')],
+            'gap': None}
+    head = ('(* GENERATED on every run by harness/C13.py translate() with translate/pyedges2coq.py from\n'
+            f'   {repo}/psiaudio/pipeline.py - do not edit.  Vocabulary: coq/Edges/TiePrims.v, coq/Runs/NumpyPrims.v.  '
+            'Tie theorems: coq/Edges/ProofsTie.v. *)\n')
+    path = os.path.join(vlib.COQ, GEN)
+
+    def broken(why):
+        info['gap'] = why
+        msg = ''.join(ch if ch.isalnum() or ch in " _.,:;()[]{}=+-*/<>'`" else ' ' for ch in why)
+        msg = msg.replace('(*', '( *').replace('*)', '* )')[:400]
+        with open(path, 'w') as f:              # deliberately ill-typed: whoever builds it sees the reason
+            f.write(head + 'From Coq Require Import ZArith String.\n' + f'Definition translator_gap : Z :=\n  "{msg}"%string.\n')
+        rc, out = vlib.coq_build('Edges/ProofsX2.vo')      # the correspondence files only need the hand-written model
+        if rc != 0:
+            raise vlib.MachineryError('Edges/ProofsX2.v does not build:\n' + out[-3000:])
+        return info
+    try:
+        info['runs'] = importlib.import_module('harness.C18').translate(repo)       # gen/RunsGen.v of the same tree
+        text, tinfo = pyedges2coq.translate(repo)
+        info.update(tinfo)
+    except vlib.MachineryError:
+        raise
+    except Exception as e:
+        return broken(f'{type(e).__name__}: {e}')
+    with open(path, 'w') as f:                  # always rewritten: always re-checked
+        f.write(head + text)
+    rc, out = vlib.coq_build('gen/EdgesGen.vo')
+    if rc != 0:
+        return broken('the generated file does not type-check: ' + out[-600:])
+    P = _P()
+    if os.path.realpath(P.__file__) != os.path.realpath(os.path.join(repo, 'psiaudio', 'pipeline.py')):
+        raise vlib.MachineryError(f'psiaudio.pipeline is {P.__file__}, not the translated source under {repo}')
+    try:
+        with warnings.catch_warnings():
+            warnings.simplefilter('ignore')
+            terms = pyedges2coq.selftest_terms(P, random.Random(7))
+    except Exception as e:                      # the real coroutine misbehaving under the self-test
+        return broken(f'self-test: {type(e).__name__}: {e}')
+    try:
+        failing = vlib.run_cases(PROP, ['gen.EdgesGen', 'Edges.TiePrims'], terms, tag='tieself')
+    except vlib.MachineryError as e:
+        return broken('self-test could not be evaluated: ' + str(e)[-600:])
+    if failing:
+        return broken(f'self-test: the generated definitions disagree with the real code on {len(failing)} of {len(terms)} '
+                      f'evaluations, first: {terms[failing[0]]}')
+    info.update(primitives=pyedges2coq.PRIMITIVES, selftest={'evaluations': len(terms), 'failing': 0})
+    return info
